@@ -168,8 +168,12 @@ func (b *Broker) connect(
 	key string,
 	proxy func(context.Context, *slog.Logger) error,
 ) {
+	vt := b.verifStart(ctx, dir, key)
+	defer vt.at("done")
 	b.mu.Lock()
 	defer b.mu.Unlock()
+	vt.at("locked")
+	defer vt.at("leave")
 
 	/* Make sure we're not no longer accepting connections. */
 	if b.noMore {
@@ -288,7 +292,9 @@ func (b *Broker) connect(
 	connection and unlock b for now.
 	We'll lock it again befor we exit. */
 	b.key = key
+	vt.at("attached")
 	b.mu.Unlock()
+	vt.at("unlocked")
 
 	/* Actually do the proxy. */
 	ct := "connection"
@@ -308,7 +314,9 @@ func (b *Broker) connect(
 
 	/* Relock B, which will be unlocked by a defer, above, and start the
 	shell disconnecting. */
+	vt.at("release")
 	b.mu.Lock()
+	vt.at("relocked")
 	b.key = ""
 	*cancelUs = nil
 	if f := *cancelOther; nil != f {
